@@ -18,6 +18,7 @@ import (
 	"verifharness/canon"
 	"verifharness/dot.pkg/binderdot"
 	"verifharness/fw"
+	"verifharness/hx"
 )
 
 // C20: reflectively bound Go functions are called only within their declared contract.
@@ -77,7 +78,16 @@ type c20Arg struct {
 	val  types.MalType
 }
 
-var c20Atom = &concurrent.Atom{Val: 1}
+// the atom argument is made by the interpreter itself ((atom 1)), not by a struct literal, so that the harness
+// does not depend on the atom's fields
+var c20Atom = func() *concurrent.Atom {
+	o := hx.EvalText(context.Background(), "(atom 1)", hx.NewStdEnv())
+	a, _ := o.Val.(*concurrent.Atom)
+	if a == nil {
+		panic("harness: (atom 1) did not give an atom")
+	}
+	return a
+}()
 
 func c20Args() []c20Arg {
 	return []c20Arg{
